@@ -1,4 +1,5 @@
 import Hive.Props.C18
+import Hive.Proofs.TimedDrop
 /-!
 # C18 — the shutdown flags: what happens to the element a poller holds and to the elements in the heap
 
@@ -159,5 +160,36 @@ theorem C18_cancel_flag_held_delivered_witness :
     wHeldDelivered.1.log = [.run 0 2, .deliver 0 2, .shutdown true false, .sched 0 none 1] ∧
     wHeldDelivered.1.closed = [] :=
   ⟨⟨0, _, ⟨by decide, by decide⟩, runSched_reach _ _ _⟩, by decide⟩
+
+/-! ### dropped and delivered exclude each other -/
+
+/-- **What the queue discards is marked as cancelled and is never handed out** — in every reachable configuration
+and in both orders.  An element with a `dropSize` (size bound) or `dropSD` (`CancelPendingElements`, in `Shutdown` or
+in `Poll`) event has a closed cancel channel, no `deliver` event and no `run` event: the excuses "dropped by a
+shutdown flag or the size bound" of the property statement never apply to an element that was (or will be) delivered,
+and (with `C18_at_most_once`) every element is delivered at most once *or* dropped, never both.  (`Drp`,
+`Hive/Proofs/TimedDrop.lean`: a discarded element was in the heap or in the hands of the poller that discards it, so
+by the counting invariant it had not been delivered; afterwards its channel is closed for good and `Poll` re-checks
+the channel before every return of a value.) -/
+theorem C18_dropped_never_delivered {c : Cfg Sh Th} (hr : Reachable c) (x : Nat)
+    (h : c.1.log.any (Ev.isDrop x) = true) :
+    x ∈ c.1.closed ∧ c.1.log.countP (Ev.isDeliver x) = 0 ∧ c.1.log.countP (Ev.isRun x) = 0 := by
+  obtain ⟨m, ts, hts, hreach⟩ := hr
+  have hd := (allD_reach hts hreach).d x h
+  have hb := (allD_reach hts hreach).all.i1.b1 x
+  simp only [dc, rc] at hd hb
+  exact ⟨hd.1, hd.2, by omega⟩
+
+/-- … and `Cancel(id)` of a discarded task reports false (there is nothing left to prevent), also when the identifier
+is still registered to it. -/
+theorem C18_dropped_cancel_false {c : Cfg Sh Th} (hr : Reachable c) (i x : Nat) (hg : regGet c.1.reg i = some x)
+    (h : c.1.log.any (Ev.isDrop x) = true) : (cancelId c.1 i).lastRes = .bool false := by
+  rw [C18_cancel_result, hg]
+  simp [(C18_dropped_never_delivered hr x h).1]
+
+/-- Hypotheses of the two theorems in reachable configurations: the size-bound witness (`wSize`: task 1 dropped by
+`dropSize`, identifier 2 still registered to it) and the poller that discards the element it holds (`wHeldDropped`). -/
+example : wSize.1.log.any (Ev.isDrop 1) = true ∧ regGet wSize.1.reg 2 = some 1 ∧
+    wHeldDropped.1.log.any (Ev.isDrop 0) = true := by decide
 
 end Hive.Timed
